@@ -264,8 +264,12 @@ class Scan:
                                     res.setdefault(tn(a), {'escapes': [], 'writes': []})['escapes'].append('%s appends it to a list (line %s)' % (short, i.get('line')))
                         continue
                     args = list(c['args'])
-                    # a static method call passes its receiver as args[0]: a use of the object, not a hand-over
+                    # a static method call passes its receiver as args[0]: a use of the object, not a hand-over - unless the
+                    # method gives a reference back (a view, a copy that may share parts with the original)
                     if not c.get('invoke') and c.get('static') and c['static'].startswith('(') and args:
+                        if tn(args[0]) and 'n' in i and carries_reference(self.prog, i.get('t', 'int')) and self.prog.types.get(i.get('t'), {}).get('k') != 'tuple':
+                            res.setdefault(tn(args[0]), {'escapes': [], 'writes': []})['escapes'].append(
+                                '%s calls %s on it, which returns a reference (line %s)' % (short, str(c['static']).rsplit('/', 1)[-1], i.get('line')))
                         args = args[1:]
                     for a in args:
                         g = tn(a)
